@@ -443,7 +443,7 @@ package main
 //@   ensures [C07] old_owner_only_loses_O: old(t.owner) != asUid && (old(t.owner) in t.perUser) ==> (t.perUser[old(t.owner)].modeWant | types.ModeOwner) == (old(t.perUser[t.owner].modeWant) | types.ModeOwner) && (t.perUser[old(t.owner)].modeGiven | types.ModeOwner) == (old(t.perUser[t.owner].modeGiven) | types.ModeOwner)
 //@   ensures [C07] no_D_O_for_non_owner: old((asUid in t.perUser) && !t.perUser[asUid].deleted && !hasO(t.perUser[asUid].modeGiven)) && (asUid in t.perUser) ==> (t.perUser[asUid].modeGiven & (types.ModeOwner | types.ModeDelete)) == old(t.perUser[asUid].modeGiven & (types.ModeOwner | types.ModeDelete))
 //@   ensures [C07] given_raised_by_admin_only: old((asUid in t.perUser) && !t.perUser[asUid].deleted && !hasO(t.perUser[asUid].modeGiven)) && (asUid in t.perUser) && t.perUser[asUid].modeGiven != old(t.perUser[asUid].modeGiven) ==> t.cat == types.TopicCatGrp && old((t.perUser[asUid].modeGiven & types.ModeApprove) != 0)
-//@   ensures [C07] join_gate: err == nil && (asUid in t.perUser) ==> hasJ(t.perUser[asUid].modeGiven) || !hasJ(t.perUser[asUid].modeWant)
+//@   ensures [C03,C07] join_gate: err == nil && (asUid in t.perUser) ==> hasJ(t.perUser[asUid].modeGiven) || !hasJ(t.perUser[asUid].modeWant)
 //@   ensures [C07] p2p_modes: t.cat == types.TopicCatP2P && (asUid in t.perUser) && t.perUser[asUid].modeWant != old(t.perUser[asUid].modeWant) ==> (t.perUser[asUid].modeWant & ^types.ModeCP2P) == 0 && (t.perUser[asUid].modeWant & types.ModeApprove) != 0
 //@   assert at call store.SubsPersistenceInterface.Create [C07] previous_grant_restored: !old(asUid in t.perUser) && !asChan && t.cat != types.TopicCatP2P && t.cat != types.TopicCatSys && gotFound && gotGiven != types.ModeUnset ==> len($1) == 1 && $1[0].ModeGiven == gotGiven
 //@   assert at call store.SubsPersistenceInterface.Update#1 [C08] given_written: ("ModeGiven" in $3) == (userData.modeGiven != old(t.perUser[asUid].modeGiven))
